@@ -60,7 +60,7 @@ def causeText : Cause → String
   | .undefinedFilter n => "undefinedFilter:" ++ hexField n
   | .filterErr n inner => "filterErr:" ++ hexField n ++ ":" ++ causeText inner
   | .parity => "parity" | .divZero => "divZero" | .io => "io" | .brk => "brk" | .cont => "cont"
-  | .other t => if t == "undefinedVariable" || t == "forElse" || t == "notExist" || t.startsWith "located:" then "other:" ++ t else "other"
+  | .other t => if t == "undefinedVariable" || t == "forElse" || t == "notExist" || t == "includeDepth" || t.startsWith "located:" then "other:" ++ t else "other"
   | .none => "none"
 
 def errKindText (e : SErr) : String :=
@@ -74,7 +74,7 @@ def errKindText (e : SErr) : String :=
   | .undefinedFilter _ => "undefinedFilter"
   | .filterErr _ _ => "filterErr"
   | .other t => if t == "undefinedVariable" then "strictUndefined" else if t == "forElse" then "forElse"
-                else if t == "notExist" then "includeIO" else "other"
+                else if t == "notExist" then "includeIO" else if t == "includeDepth" then "includeDepth" else "other"
   | _ => "other"
 
 def RunResult.show (path : Bytes) : RunResult → String
@@ -82,3 +82,8 @@ def RunResult.show (path : Bytes) : RunResult → String
   | .err e => s!"err {errKindText e} {e.line} {hexField (if e.pathSet then path else [])} {causeText e.cause}"
   | .panic _ => "panic"
   | .unmodelled w => "unmodelled " ++ w
+
+/-- `Engine.ParseTemplateLocation` + `Template.Render` of the standard engine: the template itself is
+    rendered at include depth 0, so `RenderFile` has `maxIncludeDepth` (= 100) levels left -/
+def runStd (cfg : Cfg) (fs : FS) (src : Bytes) (line : Nat) (env : Env) : RunResult :=
+  run stdPrims stdOut cfg fs maxIncludeDepth src line env
